@@ -267,6 +267,7 @@ def run_c29(res, tier, rng, binary):
             bad = True
             v.violation("%s of rows serialised from %s returned %s; the original columns are %s" % (
                 reader, desc, str(real)[:500], str(pure[reader])[:500]), replay)
+            break
         stats["known_deviation"] += deviated and not bad
         stats["identical"] += not bad and not deviated
         if not bad:
@@ -401,6 +402,7 @@ def run_c27(res, tier, rng, binary):
             bad = True
             v.violation("%s decoded through '%s' gives %s; the input buckets are %s" % (
                 desc, path, (str(real) + (" (%s)" % detail if real == "failed" else ""))[:600], str(pure)[:600]), replay)
+            break
         stats["known_deviation"] += deviated and not bad
         stats["identical"] += not bad and not deviated
         if not bad:
